@@ -10,6 +10,9 @@
  *  You can obtain one at http://mozilla.org/MPL/2.0/
  */
 
+#include <cstdint>
+#include <limits>
+
 #include "kernel/environment.h"
 
 namespace vita
@@ -228,6 +231,13 @@ bool environment::is_valid(bool force_defined) const
   if (mep.code_length == 1)
   {
     vitaERROR << "`code_length` is too short";
+    return false;
+  }
+
+  // Genes store the index of each argument in 16 bits (`gene::packed_index_t`).
+  if (mep.code_length > std::numeric_limits<std::uint16_t>::max())
+  {
+    vitaERROR << "`code_length` is too long";
     return false;
   }
 
